@@ -12,6 +12,7 @@ VERIF_KNOWN_FINDINGS=<file> substitutes the known-findings file (for testing the
 """
 import json
 import os
+from concurrent.futures import ThreadPoolExecutor
 import vlib
 from vlib import Check, tlc, build
 
@@ -24,10 +25,13 @@ ALL_SEPS = "{44, 59, 9, 32, 124}"
 CLASSES10 = '{"empty", "plain", "sep", "quote", "cr", "lf", "crlf", "nonascii", "blank", "mix"}'
 CLASSES12 = '{"empty", "plain", "sep", "quote", "cr", "lf", "crlf", "nonascii", "blank", "mix", "dquote", "endq"}'
 CLASSES6 = '{"empty", "plain", "sep", "quote", "crlf", "nonascii"}'
+CLASSES5 = '{"empty", "plain", "sep", "quote", "crlf"}'
 CLASSES4 = '{"plain", "sep", "quote", "crlf"}'
+CLASSES3 = '{"plain", "sep", "quote"}'
 CLASSES_BIG = '{"empty", "plain", "sep", "quote", "cr", "lf", "crlf", "nonascii", "astral", "blank", "mix", "dquote", "endq", "long"}'
 ENCODINGS = ["utf8", "utf16le", "utf16be", "utf32le", "utf32be"]
 
+MAX_ABNORMAL = 6
 FULL_INV = "WriterCorrect WriterRefusesRagged RenderSound ReadersCorrect RaggedRejected"
 LIGHT_INV = "WriterCorrect WriterRefusesRagged RenderSound"
 
@@ -66,16 +70,16 @@ def consts(kw):
 def leg_mc(chk, tier):
     if tier == "quick":
         confs = [dict(shapes="{10, 11, 21, 12}", mode="all", chunks="{3, 5}"),
-                 dict(shapes="{31, 22}", classes=CLASSES6, mode="uniform", chunks="{4}", ragged="FALSE")]
+                 dict(shapes="{31, 22}", classes=CLASSES5, mode="uniform", chunks="{4}", ragged="FALSE")]
     else:
         confs = [dict(shapes="{10, 11, 21, 12}", classes=CLASSES12, mode="all", chunks="{3, 4, 5}"),
-                 dict(shapes="{31, 13}", seps="{44, 32}", hk='{"plain"}', mode="all", chunks="{4, 7}"),
-                 dict(shapes="{22, 31, 13}", mode="uniform", chunks="{3, 4, 7}", ragged="FALSE"),
-                 dict(shapes="{32, 23, 33}", classes=CLASSES4, mode="uniform", chunks="{4, 9}", ragged="FALSE",
+                 dict(shapes="{31, 13}", classes=CLASSES6, seps="{44}", hk='{"plain"}', mode="all", chunks="{4, 7}"),
+                 dict(shapes="{22, 31, 13}", seps="{44, 32}", mode="uniform", chunks="{3, 4, 7}", ragged="FALSE"),
+                 dict(shapes="{32, 23}", classes=CLASSES4, mode="uniform", chunks="{4, 9}", ragged="FALSE",
                       hk='{"plain"}', seps="{44, 9}")]
     jobs = []
     for i, c in enumerate(confs):
-        jobs.append(dict(module="MC_Csv", cfg=write_cfg("mc_csv_%d.cfg" % i, **c), workers=8, timeout=1700, xmx="6g"))
+        jobs.append(dict(module="MC_Csv", cfg=write_cfg("mc_csv_%d.cfg" % i, **c), workers=6 if tier == "quick" else 8, timeout=1700, xmx="4g"))
     # vacuity guard: -coverage on the first configuration with the invariants that do not unfold the reader machines
     # (TLC's coverage instrumentation of the deeply nested recursive reader operators exhausts the heap)
     cov_cfg = write_cfg("mc_csv_cov.cfg", **dict(confs[0], inv=LIGHT_INV))
@@ -108,24 +112,27 @@ def generate(chk, tier):
     """-> (tables, texts): dicts as printed by MC_Csv.Export"""
     jobs = []
     if tier == "quick":
-        save_confs = [dict(shapes="{10, 11, 21, 12}"), dict(shapes="{31, 22}", classes=CLASSES4, hk='{"nasty"}')]
-        load_confs = [dict(shapes="{10, 11, 21}", classes=CLASSES6, hk='{"plain"}', mode="all"),
+        save_confs = [dict(shapes="{10, 11, 21, 12}"), dict(shapes="{31, 22}", classes=CLASSES4, hk='{"nasty"}', seps="{44, 32}")]
+        load_confs = [dict(shapes="{10, 11, 21}", classes=CLASSES5, hk='{"plain"}', seps="{44, 59, 32}", mode="all"),
                       dict(shapes="{12}", classes=CLASSES4, hk='{"nasty"}', seps="{59, 32}", mode="all"),
-                      dict(shapes="{21, 31}", classes=CLASSES10, hk='{"plain", "nasty"}', mode="uniform", ragged="FALSE")]
-        sims = [dict(shapes="{32, 33, 23, 43}", classes=CLASSES_BIG, mode="random", n=400)]
+                      dict(shapes="{31}", classes=CLASSES5, hk='{"nasty"}', seps="{9, 124}", mode="uniform", ragged="FALSE")]
+        sims = [dict(shapes="{32, 33, 23, 43}", classes=CLASSES_BIG, mode="random", ragged="FALSE", n=500),
+                dict(shapes="{32, 23}", classes=CLASSES_BIG, mode="random", n=60)]
     else:
         save_confs = [dict(shapes="{10, 11, 21, 12}", classes=CLASSES12), dict(shapes="{31, 22, 13}", classes=CLASSES6),
                       dict(shapes="{32, 33}", classes=CLASSES4, seps="{44, 9}")]
-        load_confs = [dict(shapes="{10, 11, 21, 12}", classes=CLASSES10, mode="all"),
-                      dict(shapes="{31}", classes=CLASSES6, hk='{"plain"}', seps="{44, 124}", mode="all", ragged="FALSE"),
-                      dict(shapes="{22, 31, 13}", classes=CLASSES6, mode="uniform")]
-        sims = [dict(shapes="{32, 33, 23, 43}", classes=CLASSES_BIG, mode="random", n=6000),
-                dict(shapes="{42, 44}", classes=CLASSES_BIG, mode="random", n=1500)]
+        load_confs = [dict(shapes="{10, 11, 21}", classes=CLASSES10, seps="{44, 32}", hk='{"plain"}', mode="all"),
+                      dict(shapes="{12}", classes=CLASSES10, seps="{59, 9}", hk='{"nasty"}', mode="all"),
+                      dict(shapes="{31}", classes=CLASSES3, hk='{"plain"}', seps="{124}", mode="all", ragged="FALSE"),
+                      dict(shapes="{22, 31, 13}", classes=CLASSES4, seps="{44, 124}", mode="uniform", ragged="FALSE")]
+        sims = [dict(shapes="{32, 33, 23, 43}", classes=CLASSES_BIG, mode="random", ragged="FALSE", n=6000),
+                dict(shapes="{46, 38, 49}", classes=CLASSES_BIG, mode="random", ragged="FALSE", n=1200),
+                dict(shapes="{32, 23, 44}", classes=CLASSES_BIG, mode="random", n=500)]
     for i, c in enumerate(save_confs):
         jobs.append(("save", c, dict(module="MC_Csv", workers=4, timeout=1200, xmx="4g", cfg=write_cfg(
             "gen_save_%d.cfg" % i, **dict(c, mode="none", ragged="FALSE", gen="save", inv="Export")))))
     for i, c in enumerate(load_confs):
-        jobs.append(("load", c, dict(module="MC_Csv", workers=4, timeout=1200, xmx="6g", cfg=write_cfg(
+        jobs.append(("load", c, dict(module="MC_Csv", workers=4, timeout=1200, xmx="4g", cfg=write_cfg(
             "gen_load_%d.cfg" % i, **dict(c, gen="load", inv="Export RenderSound")))))
     for i, c in enumerate(sims):
         cc = dict(c)
@@ -151,14 +158,20 @@ def generate(chk, tier):
 # ----------------------------------------------------------------------------------------------
 # 3. replay on the real code + judgement by Trace_Csv
 # ----------------------------------------------------------------------------------------------
-def run_harness(exe, scen):
+def run_harness(exe, scen, tag=""):
     """Runs all scenario lines; a hang / std::terminate becomes an observation and the harness is restarted behind it."""
-    path = os.path.join(vlib.scratch(), "csv_scen_%d.ndjson" % len(scen))
+    path = os.path.join(vlib.scratch(), "csv_scen_%s_%d.ndjson" % (tag, len(scen)))
     vlib.write_ndjson(path, scen)
     obs = {}
     first = 0
+    abnormal = 0
     index = {s["id"]: i for i, s in enumerate(scen)}
     while first < len(scen):
+        if abnormal >= MAX_ABNORMAL:
+            # every further scenario would cost another watchdog period: stop, the observed hangs/crashes are reported
+            for s in scen[first:]:
+                obs.setdefault(s["id"], {"abn": "skipped"})
+            break
         p = vlib.run([exe, "run", path, str(first)], timeout=1500, check=False)
         last = None
         for line in p.stdout.splitlines():
@@ -171,20 +184,21 @@ def run_harness(exe, scen):
                 obs[last] = {"abn": "std::terminate"}
             elif o.get("hang"):
                 last = o["id"]
-                obs[last] = {"abn": "hang (no result within 10 s)"}
+                obs[last] = {"abn": "hang (no result within 5 s)"}
             else:
                 last = o["id"]
                 o["abn"] = ""
                 obs[last] = o
         if p.returncode == 0:
             break
+        abnormal += 1
         if p.returncode in (42, 43) and last is not None:
             first = index[last] + 1
             continue
-        if p.returncode < 0 or p.returncode in (134, 139):   # crashed without passing the handlers
+        if p.returncode < 0 or p.returncode in (134, 136, 139):   # crashed without passing the handlers
             nxt = (index[last] + 1) if last is not None else first
             if nxt < len(scen):
-                obs[scen[nxt]["id"]] = {"abn": "crash (signal, exit %d)" % p.returncode}
+                obs[scen[nxt]["id"]] = {"abn": "crash (exit %d)" % p.returncode}
             first = nxt + 1
             continue
         raise vlib.MachineryError("csv_harness failed (exit %d): %s" % (p.returncode, p.stderr[-2000:]))
@@ -233,24 +247,36 @@ def load_runs(i, g, big):
     return runs
 
 
+BATCH = 3000      # trace records per batch (bounds the memory of the Python driver: a record carries ~25 runs)
+
+
 def leg_conformance(chk, tier, tables, texts):
+    vlib.scratch()
     exe32 = build("csv_c32", ["csv_harness.cpp"], groups=("csv",), defines=["BITSERIALIZER_VERIF_ENC_CHUNK_SIZE=32"])
     exe256 = build("csv_c256", ["csv_harness.cpp"], groups=("csv",))
+    items = [("S", i, g) for i, g in enumerate(tables)] + [("L", i, g) for i, g in enumerate(texts)]
+    chk.add_cases(0, distinct_keys=[("save", json.dumps([g["sep"], g["hdr"], g["rows"]])) for g in tables] +
+                                    [("load", g["sep"], json.dumps(g["text"])) for g in texts])
+    nw = [0]
+    for b in range(0, len(items), BATCH):
+        conformance_batch(chk, exe32, exe256, items[b:b + BATCH], nw)
+
+
+def conformance_batch(chk, exe32, exe256, items, nw):
     # ---- scenarios ----
     scen32, scen256 = [], []
     recs = {}
-    for i, g in enumerate(tables):
+    for tag, i, g in items:
+        if tag != "S":
+            continue
         rid = "S%d" % i
         recs[rid] = {"id": rid, "op": "save", "sep": g["sep"], "hdr": g["hdr"], "rows": g["rows"], "outs": []}
         for k, r in enumerate(save_runs()):
-            s = dict(r, id="%s.%d" % (rid, k), op="save", sep=g["sep"], hdr=g["hdr"], rows=g["rows"])
-            scen256.append(s)
+            scen256.append(dict(r, id="%s.%d" % (rid, k), op="save", sep=g["sep"], hdr=g["hdr"], rows=g["rows"]))
             recs[rid]["outs"].append(dict(r))
-    nw = 0
-    for i, g in enumerate(tables):
         if len(g["rows"]) < 2 or i % 5:
             continue
-        # the writer classes directly: one object with a value more / less
+        # the writer classes directly: equal widths, one object with a value less, one with a value more
         objs = [[[h, c] for h, c in zip(g["hdr"], row)] for row in g["rows"]]
         for how in ("ok", "drop", "add"):
             o = [list(x) for x in objs]
@@ -261,52 +287,65 @@ def leg_conformance(chk, tier, tables, texts):
             elif how == "add":
                 o[1] = o[1] + [[[122], [122]]]
             for kind in ("string", "stream"):
-                rid = "W%d" % nw
-                nw += 1
+                rid = "W%d" % nw[0]
+                nw[0] += 1
                 recs[rid] = {"id": rid, "op": "wdirect", "sep": g["sep"], "kind": kind, "objs": o}
                 scen256.append({"id": rid + ".0", "op": "wdirect", "sep": g["sep"], "kind": kind, "objs": o})
-    for i, g in enumerate(texts):
+    for tag, i, g in items:
+        if tag != "L":
+            continue
         rid = "L%d" % i
         big = len(g["text"]) >= 30
         recs[rid] = {"id": rid, "op": "load", "sep": g["sep"], "text": g["text"], "cls": g["cls"], "runs": []}
         k = 0
         for r, chunks in load_runs(i, g, big):
             for c in chunks:
-                s = dict(r, id="%s.%d" % (rid, k), op="load", sep=g["sep"], text=g["text"])
-                (scen32 if c == 32 else scen256).append(s)
+                (scen32 if c == 32 else scen256).append(dict(r, id="%s.%d" % (rid, k), op="load", sep=g["sep"], text=g["text"]))
                 recs[rid]["runs"].append(dict(r))
                 k += 1
-    # ---- execution ----
-    obs = run_harness(exe256, scen256)
-    obs.update(run_harness(exe32, scen32))
+    # ---- execution (both builds concurrently) ----
+    with ThreadPoolExecutor(max_workers=2) as ex:
+        f256 = ex.submit(run_harness, exe256, scen256, "256")
+        f32 = ex.submit(run_harness, exe32, scen32, "32")
+        obs = f256.result()
+        obs.update(f32.result())
+    del scen32, scen256
     nruns = 0
     for rid, rec in recs.items():
         if rec["op"] == "save":
             for k, o in enumerate(rec["outs"]):
                 ob = obs["%s.%d" % (rid, k)]
                 o.update({"abn": ob["abn"], "exc": ob.get("exc", ""), "out": ob.get("out", [])})
-                nruns += 1
+                nruns += ob["abn"] != "skipped"
+            rec["outs"] = [o for o in rec["outs"] if o["abn"] != "skipped"]
         elif rec["op"] == "load":
             for k, r in enumerate(rec["runs"]):
                 ob = obs["%s.%d" % (rid, k)]
                 r.setdefault("keys", [])
                 r.update({"abn": ob["abn"], "exc": ob.get("exc", ""), "rows": ob.get("rows", []), "fed": ob.get("fed", []),
                           "chunk": ob.get("chunk", 0), "n": ob.get("n", 0)})
-                nruns += 1
+                nruns += ob["abn"] != "skipped"
+            rec["runs"] = [r for r in rec["runs"] if r["abn"] != "skipped"]
         else:
             ob = obs[rid + ".0"]
             rec.update({"abn": ob["abn"], "exc": ob.get("exc", ""), "row": ob.get("row", -1), "out": ob.get("out", [])})
-            nruns += 1
-    lines = [json.dumps(r, separators=(",", ":")) for r in recs.values()]
+            nruns += ob["abn"] != "skipped"
+    skipped = sum(1 for o in obs.values() if o["abn"] == "skipped")
+    del obs
+    if skipped:
+        chk.notes.append("%d scenarios not executed: the harness was stopped after %d hangs/crashes" % (skipped, MAX_ABNORMAL))
+        print("NOTE: %d scenarios not executed (harness stopped after %d hangs/crashes, each reported below)" % (skipped, MAX_ABNORMAL))
+    lines = [json.dumps(r, separators=(",", ":")) for r in recs.values()
+             if not (r["op"] == "wdirect" and r["abn"] == "skipped") and (r["op"] == "wdirect" or r.get("outs") or r.get("runs"))]
     checked, bad = vlib.validate_traces("Trace_Csv", lines, cfg="Trace_Csv.cfg", shards=min(vlib.NCPU, max(1, len(lines) // 40)),
-                                        timeout=1700, xmx="3g")
-    chk.add_cases(nruns, validated=checked,
-                  distinct_keys=[("save", json.dumps([g["sep"], g["hdr"], g["rows"]])) for g in tables] +
-                                [("load", g["sep"], json.dumps(g["text"])) for g in texts])
-    if tables:
-        chk.sample({"leg": "save", "record": recs["S%d" % (len(tables) // 2)]})
-    if texts:
-        chk.sample({"leg": "load", "record": recs["L%d" % (len(texts) // 2)]})
+                                        timeout=1700, xmx="2g")
+    del lines
+    chk.add_cases(nruns, validated=checked)
+    for tag in ("S", "L"):
+        first = [r for r in recs.values() if r["id"].startswith(tag)]
+        if first and not any(isinstance(x, dict) and x.get("leg") == tag for x in chk.cov["samples"]):
+            r0 = first[len(first) // 2]
+            chk.sample({"leg": tag, "record": dict(r0, **({"outs": r0["outs"][:3]} if tag == "S" else {"runs": r0["runs"][:3]}))})
     for b in bad:
         rec = recs[b["id"]]
         case = {k: v for k, v in rec.items() if k not in ("outs", "runs")}
@@ -324,7 +363,6 @@ def leg_conformance(chk, tier, tables, texts):
         chk.fail("CSV %s: %s%s; sep=%r; %s=%s" % (rec["op"], b["why"], where, chr(rec["sep"]),
                                                    "text" if rec["op"] == "load" else "table", shown[:300]),
                  {"leg": "conformance", "verdict": b, "case": case}, dev=b["dev"] or None)
-    return recs
 
 
 def run_check(tier):
@@ -353,6 +391,8 @@ def replay(path):
     """Re-executes the recorded case on the current tree and judges it again."""
     f = json.load(open(path))
     print(json.dumps(f, indent=1)[:4000])
+    evp = os.path.join(vlib.VERIF, "evidence", "C09.json")
+    saved = open(evp).read() if os.path.exists(evp) else None
     case = f["case"]["case"]
     chk = Check("C09", "replay")
     run_ = case.pop("run", None)
@@ -365,4 +405,8 @@ def replay(path):
         print("replay of writer-direct cases: run the quick tier")
         return run_check("quick")
     leg_conformance(chk, "quick", tables, texts)
-    return chk.finish()
+    rc = chk.finish()
+    if saved is not None:          # a replay must not replace the evidence of the last full run
+        with open(evp, "w") as fh:
+            fh.write(saved)
+    return rc
